@@ -17,7 +17,7 @@ cobaenv.register()
 from coba.pipes import Multiprocessor, ListSink                   # noqa: E402
 from coba.multiprocessing import CobaMultiprocessor               # noqa: E402
 from coba.context import CobaContext, BasicLogger, NullCacher, MemoryCacher   # noqa: E402
-from vf.lib.mpharness import TenTimes, TenTimesGen, InjectedError              # noqa: E402
+from vf.lib.mpharness import TenTimes, TenTimesGen, InjectedError, EXC_KINDS              # noqa: E402
 
 
 # the two completion callbacks run on callback threads of the parent and update shared counters (_n_procs, _exceptions):
@@ -30,9 +30,9 @@ def make_body(case):
     items = list(range(1, nitems + 1))
     def body():
         if wrapper == 'coba':
-            mp = CobaMultiprocessor(TenTimesGen(faults), n, m)
+            mp = CobaMultiprocessor(TenTimesGen(faults, case.get('exc', 'custom')), n, m)
         else:
-            mp = Multiprocessor(TenTimes(faults), n, m)
+            mp = Multiprocessor(TenTimes(faults, case.get('exc', 'custom')), n, m)
         outs = []
         g = mp.filter(items)
         try:
@@ -59,7 +59,7 @@ def before():
 
 def feature(case):
     return (f"{case['wrapper']} n{'=1' if case['n']==1 else '>1'} m{'=0' if case['m']==0 else '>0'} "
-            f"{'faults' if case['faults'] else 'nofault'} consumer={'all' if case['consumer']=='all' else 'early'}")
+            f"{'faults' if case['faults'] else 'nofault'}{'' if case.get('exc', 'custom') == 'custom' else ' raising ' + case['exc']} consumer={'all' if case['consumer']=='all' else 'early'}")
 
 
 def judge(case, ex):
@@ -85,9 +85,10 @@ def judge(case, ex):
             reached = any(x in faults for x in items)
             if reached:
                 if exc is None: bad.append(('error-swallowed', f'filter raised for {sorted(faults)} but the call returned normally with {sorted(vals.elements())}'))
-                elif not (isinstance(exc, InjectedError) and exc.item in faults): bad.append(('wrong-exception', repr(exc)))
+                elif case.get('exc', 'custom') == 'custom' and not (isinstance(exc, InjectedError) and exc.item in faults): bad.append(('wrong-exception', repr(exc)))
+                elif case.get('exc', 'custom') != 'custom' and type(exc) is not EXC_KINDS[case['exc']]: bad.append(('wrong-exception', repr(exc)))
     else:
-        if exc is not None and not isinstance(exc, InjectedError):
+        if exc is not None and not isinstance(exc, (InjectedError,) + tuple(EXC_KINDS.values())):
             bad.append(('early-close-raised', repr(exc)))
         want = min(case['consumer'], sum(expected.values()))
         if exc is None and not faults and sum(vals.values()) != want:
@@ -149,7 +150,13 @@ class C08(Check):
                                 if wrapper == 'coba' and (n == 3 or k > 2 or (tier == 'quick' and (m == 2 or consumer != 'all'))): continue
                                 if tier == 'quick' and n == 3 and (m == 2 or k == 3 and faults): continue
                                 out.append({'wrapper': wrapper, 'n': n, 'm': m, 'items': k, 'faults': list(faults), 'consumer': consumer})
-        out.sort(key=lambda c: (c['items'], c['n'], c['m'], len(c['faults']), c['consumer'] != 'all', c['wrapper']))
+        # the filter raises ordinary builtin exceptions (incl. the ones coba's own queue plumbing catches internally)
+        for kind in [k for k in EXC_KINDS if k != 'custom']:
+            for wrapper, n, m in (('mp', 2, 0), ('mp', 1, 1), ('coba', 2, 0)):
+                if tier == 'quick' and wrapper == 'coba' and kind not in ('ValueError', 'EOFError'): continue
+                for x in (1, 2):
+                    out.append({'wrapper': wrapper, 'n': n, 'm': m, 'items': 2, 'faults': [x], 'consumer': 'all', 'exc': kind})
+        out.sort(key=lambda c: (c['items'], c['n'], c['m'], len(c['faults']), c['consumer'] != 'all', c['wrapper'], c.get('exc', '')))
         return out
 
     def bound(self, tier, case):
@@ -239,7 +246,7 @@ class C08(Check):
             o = json.loads(line[-1][4:])
             # judged by the same oracle as the explored executions
             ex = sched.Execution()
-            exc = InjectedError(o['exc_item']) if o['exc'] == 'InjectedError' else (None if o['exc'] is None else RuntimeError(o['exc']))
+            exc = InjectedError(o['exc_item']) if o['exc'] == 'InjectedError' else (None if o['exc'] is None else next((t(o['exc_item']) for t in EXC_KINDS.values() if t.__name__ == o['exc']), RuntimeError(o['exc'])))
             ex.result = ('ok', ([(p_, v) for p_, v in o['outs']], exc))
             ex.log = [('handled', p_, x) for p_, x in o['handled']]
             for mode, what in judge(c, ex):
@@ -251,7 +258,7 @@ class C08(Check):
 
     def post(self, acc, tier):
         confs = [c for c in self.cases(tier) if c['wrapper'] == 'mp' and not (c['n'] == 1 and c['m'] == 0) and c['consumer'] == 'all']
-        pick = confs if tier == 'thorough' else [c for c in confs if c['items'] == 2 and c['n'] == 2 and len(c['faults']) <= 1][:6]
+        pick = confs if tier == 'thorough' else [c for c in confs if c['items'] == 2 and c['n'] == 2 and len(c['faults']) <= 1 and 'exc' not in c][:6] + [c for c in confs if c.get('exc') in ('EOFError', 'ValueError') and c['n'] == 2 and c['faults'] == [1]]
         n_ok = self.real_runs(pick, acc)
         acc.traces += n_ok
         return {'real_os_conformance_runs': n_ok}
